@@ -352,3 +352,79 @@ Qed.
 Theorem struct_fields_refuted : exists sizes, Forall (fun s => 0 < s) sizes /\
   forallb (fun s => record_size sizes mod s =? 0) sizes = false.
 Proof. exists [4; 8]. split; [repeat constructor; lia|reflexivity]. Qed.
+
+(* ------------------------------------------------------------------ the same, for a leaf in the middle of a storage *)
+Lemma decode_of_slice A np storage l start :
+  wf_leaf l -> flat_size A np (spec_of l) mod l_esz l = 0 ->
+  slice storage start (start + flat_size A np (spec_of l)) = chunk A np l ->
+  decode_leaf storage (l_dt l) (l_esz l) (l_shape l)
+    {| s_start := start; s_stop := start + flat_size A np (spec_of l); s_pad := pad_of A np (nbytes (spec_of l)) |}
+  = if start mod l_esz l =? 0 then DOk l else DViewErr.
+Proof.
+  intros [Hlen He] Hsz Hsl. unfold decode_leaf. cbn [s_start s_stop s_pad]. rewrite Hsl.
+  rewrite chunk_length by exact Hlen.
+  unfold view_ok. rewrite Hsz. cbn [Nat.eqb andb].
+  replace (0 <? l_esz l) with true by (symmetry; apply Nat.ltb_lt; exact He). cbn [andb].
+  assert (Hv : (l_esz l =? 1) || (start mod l_esz l =? 0) = (start mod l_esz l =? 0)).
+  { destruct (l_esz l =? 1) eqn:E1; [|reflexivity]. apply Nat.eqb_eq in E1. rewrite E1, Nat.mod_1_r. reflexivity. }
+  rewrite Hv.
+  destruct (start mod l_esz l =? 0); cbn [negb]; [|reflexivity].
+  unfold flat_size, nbytes, spec_of in *. cbn [sp_esz sp_shape] in *.
+  set (e := l_esz l) in *. set (k := numel (l_shape l)) in *. set (p := pad_of A np (e * k)) in *.
+  assert (Hnel : (if p =? 0 then (e * k + p) / e else Nat.min ((e * k + p) / e) k) = k).
+  { destruct (p =? 0) eqn:Ep.
+    - apply Nat.eqb_eq in Ep. rewrite Ep, Nat.add_0_r, Nat.mul_comm. now apply Nat.div_mul; lia.
+    - apply Nat.min_r. now apply div_ge_numel. }
+  rewrite Hnel, Nat.eqb_refl. cbn [negb].
+  unfold chunk. rewrite firstn_app.
+  replace (k * e - length (l_bytes l)) with 0 by lia.
+  rewrite firstn_O, app_nil_r, firstn_all2 by lia.
+  destruct l; reflexivity.
+Qed.
+
+Lemma slice_in_context A np pre l post :
+  Forall wf_leaf pre -> length (l_bytes l) = nbytes (spec_of l) ->
+  slice (encode A np (pre ++ l :: post)) (total A np (map spec_of pre))
+        (total A np (map spec_of pre) + flat_size A np (spec_of l)) = chunk A np l.
+Proof.
+  intros Hpre Hl. unfold slice. rewrite encode_app. cbn [encode].
+  rewrite <- (encode_length A np pre Hpre).
+  rewrite skipn_app, Nat.sub_diag, skipn_all. cbn [skipn app].
+  replace (length (encode A np pre) + flat_size A np (spec_of l) - length (encode A np pre)) with (length (chunk A np l))
+    by (rewrite chunk_length by exact Hl; now rewrite Nat.add_comm, Nat.add_sub).
+  now rewrite firstn_app, Nat.sub_diag, firstn_all, firstn_O, app_nil_r.
+Qed.
+
+Theorem decode_in_context A np pre l post :
+  Forall wf_leaf pre -> wf_leaf l -> flat_size A np (spec_of l) mod l_esz l = 0 ->
+  decode_leaf (encode A np (pre ++ l :: post)) (l_dt l) (l_esz l) (l_shape l)
+    {| s_start := total A np (map spec_of pre); s_stop := total A np (map spec_of pre) + flat_size A np (spec_of l);
+       s_pad := pad_of A np (nbytes (spec_of l)) |}
+  = if total A np (map spec_of pre) mod l_esz l =? 0 then DOk l else DViewErr.
+Proof.
+  intros Hpre Hl Hsz. apply decode_of_slice; [exact Hl|exact Hsz|]. apply slice_in_context; [exact Hpre|apply Hl].
+Qed.
+
+(* alignment of a run of leaves laid out from [start] *)
+Fixpoint aligned_at (A : nat) (np : bool) (start : nat) (ls : list lspec) : bool :=
+  match ls with
+  | [] => true
+  | l :: r => (start mod sp_esz l =? 0) && aligned_at A np (start + flat_size A np l) r
+  end.
+
+Lemma aligned_at_app A np : forall a b start,
+  aligned_at A np start (a ++ b) = aligned_at A np start a && aligned_at A np (start + total A np a) b.
+Proof.
+  induction a as [|x a IH]; intros b start; cbn [app aligned_at].
+  - cbn. now rewrite Nat.add_0_r.
+  - rewrite IH, total_cons, <- andb_assoc, Nat.add_assoc. reflexivity.
+Qed.
+
+Lemma aligned_at_partial A ls : 0 < A -> Forall (fun l => 0 < sp_esz l /\ Nat.divide (sp_esz l) A) ls ->
+  forall start, Nat.divide A start -> aligned_at A true start ls = true.
+Proof.
+  intros HA. induction 1 as [|l r [He Hd] _ IH]; intros start Hs; cbn [aligned_at]; [reflexivity|].
+  rewrite IH.
+  - rewrite andb_true_r. apply Nat.eqb_eq. apply divide_mod0; [exact He|]. eapply Nat.divide_trans; eassumption.
+  - apply Nat.divide_add_r; [exact Hs|]. unfold flat_size. now apply padded_divide.
+Qed.
